@@ -3,6 +3,7 @@
    (b) executable port-level model and wire-level specification on compiled trees, at a numeric point. *)
 From Coq Require Import List String QArith ZArith Bool Qminmax Qreduction.
 From Bq Require Import Expr StdSem RepModel Routine Compile CompileTop DenSrc.
+From BqGen Require Import GenHighwater.
 Import ListNotations.
 Open Scope string_scope.
 
@@ -25,12 +26,12 @@ Fixpoint active (ws : list wire) (k : nat) : Q :=
   match k with
   | O => 0
   | S O => outflow_at ws 0
-  | S j => active ws j - inflow_at ws j + outflow_at ws j
+  | S j => gen_hw_next (active ws j) (inflow_at ws j) (outflow_at ws j) 0
   end.
 
 (* the watermark list the code builds for n children with highwaters hw 1 .. hw n *)
 Definition code_watermarks (ws : list wire) (n : nat) (hw : nat -> Q) : list Q :=
-  (outflow_at ws 0 :: map (fun k => active ws k - inflow_at ws k + hw k) (seq 1 n) ++ [inflow_at ws (S n)])%list.
+  (outflow_at ws 0 :: map (fun k => gen_hw_mark (active ws k) (inflow_at ws k) (outflow_at ws k) (hw k)) (seq 1 n) ++ [inflow_at ws (S n)])%list.
 
 (* the cuts of the specification *)
 Definition cut_watermarks (ws : list wire) (n : nat) (hw : nat -> Q) : list Q :=
@@ -62,16 +63,22 @@ Definition finish (marks : list (option Q)) (anc : option Q) : option Q :=
   end.
 
 (* calculate_highwater on one node, children's highwater taken from the tree itself *)
+Definition olift4 (f : Q -> Q -> Q -> Q -> Q) (a b c d : option Q) : option Q :=
+  match a, b, c, d with Some x, Some y, Some z, Some w => Some (Qred (f x y z w)) | _, _, _, _ => None end.
+
+(* the directions that count as inflow / outflow, the two expressions of the loop and the resource names are the ones
+   translated from derived_resources.py (GenHighwater.v) *)
 Definition hw_model (r : string -> Q) (t : ctree expr) : option Q :=
-  let inflow := qsum (port_vals r t [DIn; DThrough]) in
+  let inflow := qsum (port_vals r t gen_hw_inflow_dirs) in
   let step (st : option Q * list (option Q)) (c : ctree expr) :=
-      let cin := qsum (port_vals r c [DIn; DThrough]) in
-      let cout := qsum (port_vals r c [DOut; DThrough]) in
-      let chw := match res_val r c "qubit_highwater" with Some v => v | None => None end in
-      (oadd (osub (fst st) cin) cout, (snd st ++ [oadd (osub (fst st) cin) chw])%list) in
+      let cin := qsum (port_vals r c gen_hw_inflow_dirs) in
+      let cout := qsum (port_vals r c gen_hw_outflow_dirs) in
+      let chw := match res_val r c gen_hw_resource_name with Some v => v | None => None end in
+      (olift4 gen_hw_next (fst st) cin cout (match chw with Some v => Some v | None => Some 0 end),
+       (snd st ++ [olift4 gen_hw_mark (fst st) cin cout chw])%list) in
   let st := fold_left step (ct_children t) (inflow, [inflow]) in
-  let anc := match res_val r t "local_ancillae" with Some v => v | None => Some 0 end in
-  finish (snd st ++ [qsum (port_vals r t [DOut; DThrough])])%list anc.
+  let anc := match res_val r t gen_hw_ancillae_name with Some v => v | None => Some 0 end in
+  finish (snd st ++ [qsum (port_vals r t gen_hw_outflow_dirs)])%list anc.
 
 Fixpoint index_of (n : string) (l : list (ctree expr)) (k : nat) : option nat :=
   match l with
